@@ -420,6 +420,14 @@ func (w *WS) Reset() {
 	w.c.Close()
 }
 
+// SyncPeer waits until the gateway has consumed everything sent so far.
+func (w *WS) SyncPeer() bool {
+	if t := rawTCP(w.c); t != nil {
+		return procnet.WaitPeerDrained(t, 2*time.Second)
+	}
+	return false
+}
+
 // RawConn exposes the underlying connection.
 func (w *WS) RawConn() net.Conn { return w.c }
 
@@ -440,11 +448,11 @@ type Legacy struct {
 	// handles coalesced or split reads (that is C08's subject, checked there with Pipeline = true).
 	Pipeline bool
 	inRaw    *net.TCPConn
-	id string
+	id       string
 	wmu      sync.Mutex
 }
 
-func (l *Legacy) Kind() string { return "legacy" }
+func (l *Legacy) Kind() string  { return "legacy" }
 func (l *Legacy) Seed2() string { return l.id }
 
 // OpenOut opens the RDG_OUT_DATA connection and reads the 200 + 10 byte seed.
@@ -516,6 +524,17 @@ func (l *Legacy) OpenIn(t Target, connID string) error {
 		return err
 	}
 	br := bufio.NewReader(c)
+	// An accepting gateway answers at once. A refusing one (no hijack) first tries to read the rest of the
+	// chunked request body, so end the body if nothing has arrived after a short while.
+	c.SetReadDeadline(time.Now().Add(300 * time.Millisecond))
+	if _, perr := br.Peek(1); perr != nil {
+		if ne, ok := perr.(net.Error); !ok || !ne.Timeout() {
+			c.Close()
+			return perr
+		}
+		c.Write([]byte("0\r\n\r\n"))
+	}
+	c.SetReadDeadline(time.Now().Add(10 * time.Second))
 	code, h, err := readResponseHead(br)
 	if err != nil {
 		c.Close()
@@ -569,6 +588,14 @@ func (l *Legacy) Send(unit []byte) error {
 		l.syncIn()
 	}
 	return err
+}
+
+// SyncPeer waits until the gateway has consumed everything sent on the IN connection.
+func (l *Legacy) SyncPeer() bool {
+	if l.inRaw != nil {
+		return procnet.WaitPeerDrained(l.inRaw, 2*time.Second)
+	}
+	return false
 }
 
 func (l *Legacy) syncIn() {
